@@ -10,5 +10,6 @@ import (
 func main() {
 	r := ev.New("C02", "model_checking")
 	cx.RunProperty(r, "c02:")
+	backpressurePart(r) // the outgoing queue is full (backpressure.go)
 	r.Finish()
 }
